@@ -83,6 +83,19 @@ def run_case(base, case, acc):
                 r["lb"], r["ub"] = (0, 10) if exportw else (-10, 0)
             else:
                 r["lb"], r["ub"] = (-10, 0) if exportw else (0, 10)
+    n_ex = sum(1 for r in rec["rxns"] if r["id"].startswith("EX_"))
+    internal = [m["id"] for m in rec["mets"] if m["compartment"] == "c"]
+    if internal and n_ex <= 4 and rng.random() < 0.35:
+        # alternative nutrient routes of different sizes into one metabolite: one nutrient alone, or two others
+        # together - media with more components than the minimum exist next to the minimal ones
+        target_met = rng.choice(internal)
+        for mid in ("alt_a_e", "alt_b_e", "alt_c_e"):
+            rec["mets"].append({"id": mid, "compartment": "e", "name": mid, "formula": "", "charge": None})
+            cap = rng.choice([5, 10, 20])
+            rec["rxns"].append({"id": "EX_" + mid, "stoich": {mid: -1}, "lb": -cap, "ub": 1000, "gpr": None, "obj": 0, "name": "exchange " + mid, "subsystem": ""})
+        rec["rxns"].append({"id": "ALT1", "stoich": {"alt_a_e": -1, target_met: 1}, "lb": 0, "ub": 1000, "gpr": None, "obj": 0, "name": "route 1", "subsystem": ""})
+        rec["rxns"].append({"id": "ALT2", "stoich": {"alt_b_e": -1, "alt_c_e": -1, target_met: rng.choice([1, 2])}, "lb": 0, "ub": 1000, "gpr": None, "obj": 0, "name": "route 2", "subsystem": ""})
+        acc.count("models_with_alternative_nutrient_routes_of_different_sizes")
     with warnings.catch_warnings():
         warnings.simplefilter("ignore")
         model = gen.build(rec)
@@ -200,7 +213,7 @@ def run_case(base, case, acc):
         if mode == "components":
             kw["minimize_components"] = True
         elif mode == "components-k":
-            kw["minimize_components"] = rng.choice([2, 3])
+            kw["minimize_components"] = rng.choice([2, 3, 5, 8])  # also more than there are minimal alternatives
         if mode.endswith("exports"):
             kw["exports"] = True
         ident = dict(ident0, mode=mode, kw={k: v for k, v in kw.items()}, max_objective=zz)
@@ -248,6 +261,10 @@ def run_case(base, case, acc):
             acc.violation("C18/minimal_medium/None-although-a-medium-suffices", f"None returned but the target {target} is reachable (max {zz}, minimal total import {float(tot.obj)})", w(exact_total=float(tot.obj)))
             continue
         media = [res] if not hasattr(res, "columns") else [res[c] for c in res.columns]
+        if mode == "components-k":
+            acc.count("alternative_media_returned", len(media))
+            if len(media) < kw["minimize_components"]:
+                acc.count("calls_with_fewer_minimal_alternatives_than_requested")
         if mode.startswith("components"):
             acc.count("component_minimal_calls")
             kmin = min_components(lp, us, exs)
